@@ -81,7 +81,7 @@ pub fn spec() -> PropSpec<Case> {
         .boxed()
     },
     check,
-    cases: |tier| tier.pick(40_000, 800_000),
+    cases: |tier| tier.pick(120_000, 3_000_000),
     rule: "sampled layer: generated worlds x plans of 0-4 faults, each fault replacing the answer of one load call of the fault-free build (missing, loader error, checksum error, redirect to another / the same / an already loaded specifier, external, module under another final specifier, undecodable bytes, unparsable text), plus npm resolver failures; exhaustive layer: for base worlds whose fault-free build issues <= 7 load calls, every single fault (call x kind); non-trivial = at least one injected fault fired and the fault-free graph has a module that does not depend on it; distinct = distinct case JSON",
     assumptions: &[
       "the NpmResolver returns as many results as requirements (documented MUST)",
@@ -161,6 +161,31 @@ fn run_jsr(
   (graph, loader)
 }
 
+/// A module served under another final specifier lives elsewhere: its
+/// relative imports become requests for other specifiers (with the attributes
+/// written there), which therefore depend on the fault. What the re-homed
+/// content is parsed as depends on the new name as well, so every token of
+/// the served bytes that looks like a relative specifier counts.
+fn rehomed_requests(l0: &WorldLoader, spec: &str, fault: &Fault, touched: &mut BTreeSet<String>) {
+  let Fault::FinalSpec(t) = fault else { return };
+  let (Ok(own), Ok(base)) = (ModuleSpecifier::parse(spec), ModuleSpecifier::parse(t)) else {
+    return;
+  };
+  let served = l0.served.borrow();
+  let Some(crate::harness::Served::Module { bytes, .. }) = served.get(&own) else {
+    return;
+  };
+  let is_spec_byte = |b: u8| b.is_ascii_alphanumeric() || b"._~/-%@:+?#&".contains(&b);
+  for tok in bytes.split(|b| !is_spec_byte(*b)) {
+    let Ok(raw) = std::str::from_utf8(tok) else { continue };
+    if raw.starts_with("./") || raw.starts_with("../") || (raw.starts_with('/') && raw.len() > 1 && !raw.starts_with("//")) {
+      if let Ok(u) = base.join(raw) {
+        touched.insert(u.to_string());
+      }
+    }
+  }
+}
+
 pub fn make_fault(kind: u8, arg: u16, loaded: &[String], own: &str) -> (Fault, Option<String>) {
   match kind {
     0 => (Fault::Missing, None),
@@ -218,6 +243,7 @@ pub fn check(case: &Case, _tier: Tier) -> Outcome {
       let attempt = log0[..call.seq].iter().filter(|c| c.spec == call.spec).count() as u32;
       let (fault, target) = make_fault(f.kind, f.arg, &loaded, &call.spec);
       touched.insert(call.spec.clone());
+      rehomed_requests(&l0, &call.spec, &fault, &mut touched);
       if let Some(t) = target {
         touched.insert(t);
       }
@@ -260,7 +286,16 @@ pub fn check(case: &Case, _tier: Tier) -> Outcome {
     }
   }
   let nfaults = plan.len();
+  let trace = std::env::var("VP_C03_TRACE").is_ok();
+  if trace {
+    eprintln!("plan: {plan:?}\nlog0: {:?}", log0.iter().map(|c| format!("{}[{}]", c.spec, c.cache)).collect::<Vec<_>>());
+  }
   let (gf, lf) = run_jsr(b, jsr, case.jsr_second_build, plan, case.npm_mode);
+  if trace {
+    eprintln!("logf: {:?}", lf.log.borrow().iter().map(|c| format!("{}[{}]", c.spec, c.cache)).collect::<Vec<_>>());
+    eprintln!("g0: {}", serde_json::to_string_pretty(&g0).unwrap_or_default());
+    eprintln!("gf: {}", serde_json::to_string_pretty(&gf).unwrap_or_default());
+  }
   let fired = check_faulted(b, &g0, &gf, &lf, &touched, &simple, &mut o);
   if fired > 0 {
     o.label("fault-fired");
@@ -334,6 +369,41 @@ fn check_faulted(
   let logf = lf.log.borrow().clone();
   // --- fault -> error entry with referrer
   let entries = obs::entries(gf, false);
+  // a specifier requested under different import attributes gets whatever
+  // the first request makes of it: which request comes first depends on the
+  // faults
+  let mut requested_as: BTreeMap<ModuleSpecifier, BTreeSet<Option<String>>> = BTreeMap::new();
+  // (in either build: a fault that re-homes a module makes its relative
+  // imports requests for other specifiers)
+  for g in [g0, gf] {
+    let plain = g.roots.iter().chain(
+      g.imports
+        .values()
+        .flat_map(|gi| gi.dependencies.values())
+        .filter_map(|d| d.maybe_type.maybe_specifier()),
+    );
+    for t in plain {
+      for k in [t, g.resolve(t)] {
+        requested_as.entry(k.clone()).or_default().insert(None);
+      }
+    }
+    for m in g.modules() {
+      for d in m.dependencies().values() {
+        for r in [&d.maybe_code, &d.maybe_type] {
+          if let Some(t) = r.maybe_specifier() {
+            for k in [t, g.resolve(t)] {
+              requested_as.entry(k.clone()).or_default().insert(d.maybe_attribute_type.clone());
+            }
+          }
+        }
+      }
+    }
+  }
+  let mixed: BTreeSet<ModuleSpecifier> = requested_as
+    .into_iter()
+    .filter(|(_, v)| v.len() > 1)
+    .map(|(k, _)| k)
+    .collect();
   // after a cache busting restart the graph is the result of the second pass,
   // in which the (attempt-keyed) faults of the first pass no longer apply
   let restarted = b
@@ -403,6 +473,9 @@ fn check_faulted(
       continue;
     }
     let Ok(url) = ModuleSpecifier::parse(spec) else { continue };
+    if mixed.contains(&url) {
+      continue; // a request under another attribute may settle it first
+    }
     let err = gf.module_errors().find(|e| e.specifier() == &url);
     match err {
       None => o.violate(
@@ -509,6 +582,50 @@ fn check_faulted(
       Some(format!("{}/{}", parts.next()?, parts.next()?))
     })
     .collect();
+  // requirement resolution prefers versions already in the graph, so what a
+  // module of a faulted package (or a faulted module) asks of another package
+  // decides how every other request for that package resolves
+  let package_of = |s: &str| -> Option<String> {
+    if let Some(rest) = s.strip_prefix(crate::registry::REGISTRY) {
+      let mut parts = rest.splitn(3, '/');
+      return Some(format!("{}/{}", parts.next()?, parts.next()?));
+    }
+    let rest = s.strip_prefix("jsr:")?;
+    let rest = rest.strip_prefix('/').unwrap_or(rest);
+    let mut parts = rest.splitn(3, '/');
+    let scope = parts.next()?;
+    let name = parts.next()?;
+    let name = name.split('@').next()?;
+    Some(format!("{scope}/{name}"))
+  };
+  let mut faulted_packages = faulted_packages;
+  loop {
+    let mut grew = false;
+    for m in g0.modules() {
+      let sp = m.specifier().as_str();
+      let is_faulted = f_exact.contains(m.specifier())
+        || package_of(sp).map(|p| faulted_packages.contains(&p)).unwrap_or(false);
+      if !is_faulted {
+        continue;
+      }
+      for (raw, d) in m.dependencies() {
+        let mut names: Vec<String> = vec![raw.clone()];
+        for r in [&d.maybe_code, &d.maybe_type] {
+          if let Some(t) = r.maybe_specifier() {
+            names.push(t.to_string());
+          }
+        }
+        for n in names {
+          if let Some(p) = package_of(&n) {
+            grew |= faulted_packages.insert(p);
+          }
+        }
+      }
+    }
+    if !grew {
+      break;
+    }
+  }
   struct Faulted {
     exact: BTreeSet<ModuleSpecifier>,
     packages: BTreeSet<String>,
@@ -557,6 +674,7 @@ fn check_faulted(
       // were first requested
       if obs::acceptance_is_context_sensitive(&b.world, s.as_str()).is_some()
         || m.external().map(|e| e.was_asset_load).unwrap_or(false)
+        || mixed.contains(&s)
       {
         continue;
       }
@@ -582,7 +700,7 @@ fn check_faulted(
   let mut independent = 0;
   for s in &reach {
     let k = s.to_string();
-    if obs::acceptance_is_context_sensitive(&b.world, &k).is_some() {
+    if obs::acceptance_is_context_sensitive(&b.world, &k).is_some() || mixed.contains(s) {
       continue;
     }
     if let Some(m) = mods0.get(s) {
@@ -658,6 +776,7 @@ pub fn extra(tier: Tier, seed: u64) -> ExtraReport {
           let (fault, target) = make_fault(kind, arg, &loaded, &call.spec);
           let mut touched = BTreeSet::new();
           touched.insert(call.spec.clone());
+          rehomed_requests(&l0, &call.spec, &fault, &mut touched);
           if let Some(t) = target {
             touched.insert(t);
           }
